@@ -7,7 +7,7 @@ from fgutils.const import SYMBOL_KEY, IS_LABELED_KEY, LABELS_KEY, AAM_KEY, BOND_
 
 token_specification = [
     ("ATOM", r"H|Br|Cl|Se|Sn|Si|Mg|Li|C|N|O|P|S|F|B|I|b|c|n|o|p|s"),
-    ("BOND", r"\.|-|=|#|$|:|/|\\"),
+    ("BOND", r"\.|-|=|#|\$|:|/|\\"),
     ("BRANCH_START", r"\("),
     ("BRANCH_END", r"\)"),
     ("RING_NUM", r"\d+"),
